@@ -95,6 +95,7 @@ enum cc_stat cc_dynamic_pool_new_conf(
     pool->is_fixed      = conf->is_fixed;
     pool->is_packed     = conf->is_packed;
     pool->top_page_size = size;    
+    pool->alignment_boundary = conf->alignment_boundary;
     pool->page          = page;
     pool->high_ptr      = page + sizeof(PageInfo);
     pool->low_ptr       = pool->high_ptr;
